@@ -387,6 +387,7 @@ struct Lock {
     ever_submitted: BTreeSet<usize>,
     completed: BTreeSet<usize>,
     frames_tx: u64,
+    wire_log: Vec<u8>,
 }
 
 impl Lock {
@@ -639,6 +640,10 @@ impl Lock {
 
     fn check_wire(&mut self, out: &mut RunOut, action: &str) -> bool {
         let w = self.take_wire();
+        if !w.is_empty() {
+            self.wire_log.extend_from_slice(&w);
+            self.wire_log.extend_from_slice(&kernel::now_ns().to_le_bytes());
+        }
         self.got_wire.extend(w);
         if self.got_wire.len() > if self.is_rtu() { 256 } else { 260 } && self.got_wire.len() <= 300 && self.frames_tx <= 1 {
             out.probe("long_frame_seen");
@@ -785,6 +790,7 @@ fn run_lockstep_impl(cfg: &ScenCfg, out: &mut RunOut, rtu: bool) {
         ever_submitted: BTreeSet::new(),
         completed: BTreeSet::new(),
         frames_tx: 0,
+        wire_log: Vec::new(),
     };
     kernel::settle();
     let mut wl_hash = dec_idx as u64 ^ (qcap as u64) << 8 ^ (retry_min) << 16;
@@ -1228,7 +1234,10 @@ fn run_lockstep_impl(cfg: &ScenCfg, out: &mut RunOut, rtu: bool) {
     out.sample = Some(json!({"scenario": if rtu { "rtu client lock-step" } else { "tcp client lock-step" }, "variant": cfg.variant, "decode_level_index": dec_idx,
         "max_timeouts": max_timeouts, "queue_capacity": qcap, "retry_min_ms": retry_min / MS, "retry_max_ms": retry_max / MS,
         "actions": trace.iter().take(40).collect::<Vec<_>>()}));
-    out.observable.extend(format!("{:?}{:?}", l.rig.comps.lock().unwrap(), l.rig.states.lock().unwrap()).into_bytes());
+    let mut comps = l.rig.comps.lock().unwrap().clone();
+    comps.sort_by_key(|c| (c.1, c.0));
+    out.observable.extend(format!("{:?}{:?}", comps, l.rig.states.lock().unwrap()).into_bytes());
+    out.observable.extend_from_slice(&l.wire_log);
 }
 
 // ---------------------------------------------------------------------------
